@@ -112,7 +112,7 @@ class Scenario:
                 "D": list(self.D), "O": list(self.O), "shared": [list(x) for x in self.shared],
                 "own": {k: [list(x) for x in v] for k, v in self.own.items()}, "suite": self.suite,
                 "previous": self.previous, "persistent": list(self.persistent) if self.persistent else None,
-                "vm_strs": self.vm_strs}
+                "vm_strs": self.vm_strs, "run_params": self.run_params, "watch": list(getattr(self, "watch", ()))}
 
     def variant(self, name_suffix, **kw):
         s = copy.copy(self)
